@@ -146,13 +146,13 @@ def _gate_folded(ctx, fn: FunctionInfo, table_text: str, returns_lookup: bool) -
         loc = table_text.split("['")[1].split("']")[0]
     F.start_trace()
     try:
-        for allowed in (None, [], ["B"], ["A", "B"], ["Z", "C"]):
-            table = {"A": ExtVal("MODEL_A"), "B": ExtVal("MODEL_B"), "C": ExtVal("MODEL_C")}
+        for allowed in (None, [], ["B"], ["AB"], ["A", "B"], ["Z", "C"], ["a"], [" A"], ["A "], ["ABC"]):
+            table = {"A": ExtVal("MODEL_A"), "B": ExtVal("MODEL_B"), "C": ExtVal("MODEL_C"), "AB": ExtVal("MODEL_AB")}
             other = {"A": ExtVal("OTHER_A"), "Z": ExtVal("OTHER_Z")}
             algs = table if loc is None else {k: (table if k == loc else dict(other)) for k in ("alg", "enc", "zip")}
-            for name in ("A", "B", "C", "Z", "", 1, None, 1.5, ("A",)):
-                inst = Inst(fn.cls, {"algorithms": algs, "allowed": None if allowed is None else list(allowed), "recommended": ["A"]})
-                ok_want = isinstance(name, str) and name in table and (name in allowed if allowed else name in ["A"])
+            for name in ("A", "B", "C", "AB", "Z", "", "a", "A ", 1, None, 1.5, ("A",)):
+                inst = Inst(fn.cls, {"algorithms": algs, "allowed": None if allowed is None else list(allowed), "recommended": ["AB"]})
+                ok_want = isinstance(name, str) and name in table and (name in allowed if allowed else name in ["AB"])
                 try:
                     r = F.call(FuncVal(fn, None, inst), [name] if returns_lookup else [name, table], {})
                     if is_unknown(r):
@@ -160,7 +160,7 @@ def _gate_folded(ctx, fn: FunctionInfo, table_text: str, returns_lookup: bool) -
                     got = "ok"
                 except FoldRaise as ex:
                     got = getattr(getattr(ex.exc, "cls", None), "name", None) or getattr(ex, "name", "") or "?"
-                where = f"name={name!r}, allowed={allowed!r}, recommended=['A'], table A/B/C"
+                where = f"name={name!r}, allowed={allowed!r}, recommended=['AB'], table A/B/C/AB"
                 if ok_want and got != "ok":
                     problems.append(f"an allowed, supported algorithm is refused ({where}: {got})")
                 elif not ok_want and got == "ok":
